@@ -133,7 +133,7 @@ func floatLiteral() *rapid.Generator[string] {
 				sb.WriteString(digits(1, 18).Draw(t, "exp"))
 			} else if k == 1 {
 				// next to the limits of int64
-				sb.WriteString(rapid.SampledFrom([]string{"9223372036854775807", "9223372036854775806", "9223372036854775808", "9223372036854775000", "4611686018427387904", "09223372036854775807", "18446744073709551616"}).Draw(t, "explimit"))
+				sb.WriteString(rapid.SampledFrom([]string{"9223372036854775807", "9223372036854775806", "9223372036854775808", "9223372036854775000", "4611686018427387904", "09223372036854775807", "18446744073709551616", "99999999999999999999", "100000000000000000000000000", "0000000000000000000000000012"}).Draw(t, "explimit"))
 			} else {
 				sb.WriteString(stdstrconv.Itoa(rapid.IntRange(0, 400).Draw(t, "exp")))
 			}
@@ -301,18 +301,11 @@ func checkParseFloat(t *rapid.T, s string) (string, bool) {
 		}
 		return "nomatch", false
 	}
-	// the exponent is read with ParseInt: exponents that overflow int64 are outside the documented syntax
 	if i := strings.IndexAny(m, "eE"); i >= 0 {
 		e, _ := new(big.Int).SetString(strings.TrimPrefix(m[i+1:], "+"), 10)
-		if !e.IsInt64() {
-			if n < 0 || n > len(s) {
-				t.Fatalf("ParseFloat(%q): n=%d out of range", s, n)
-			}
-			return "hugeexp", false
-		}
 		if e.CmpAbs(big.NewInt(100000)) > 0 {
-			// an exponent that fits int64 but is far outside the range of float64: zero or infinity, whatever the
-			// mantissa (of at most a few thousand digits) is
+			// an exponent (of any number of digits: it need not fit an int64) that is far outside the range of float64:
+			// zero or infinity, whatever the mantissa (of at most a few thousand digits) is
 			if n != len(m) {
 				t.Fatalf("ParseFloat(%q) consumed %d bytes, the longest numeric prefix %q has %d", s, n, m, len(m))
 			}
